@@ -159,7 +159,8 @@ impl Oracle for ValueOracle {
 
 pub fn spec_c01() -> PropSpec {
     let mut pf = Profile::base();
-    pf.durs = [7, 1, 1, 0];
+    pf.durs = [5, 2, 2, 0];
+    pf.coarse_hash_pct = 25;
     PropSpec {
         id: "C01",
         profile: pf,
